@@ -7,3 +7,6 @@ func (t *Timer) VerifInv() bool {
 	return t.reloadCycle <= 2 && t.overflow == (t.reloadCycle != 0)
 }
 func (t *Timer) VerifReloading() bool { return t.reloadCycle != 0 }
+
+func (t *Timer) VerifSetCounter(v uint16) { t.counter = v }
+func (t *Timer) VerifCounter() uint16    { return t.counter }
